@@ -100,6 +100,10 @@ func cmdVerify(args []string) {
 			fmt.Printf("%-60s TRUSTED (contract assumed)\n", k)
 			continue
 		}
+		if spec != nil && spec.ThoroughOnly && os.Getenv("GOVC_THOROUGH") == "" && len(fs.Args()) > 0 && strings.Contains(strings.Join(fs.Args(), " "), "*") {
+			fmt.Printf("%-60s THOROUGH-ONLY (skipped by a wildcard run; set GOVC_THOROUGH=1)\n", k)
+			continue
+		}
 		ctx, x, err := e.VerifyFunction(fn)
 		if err != nil {
 			fmt.Printf("FAIL %-60s ERROR contract-binding: %v\n", k, err)
